@@ -13,7 +13,7 @@ The confirmed change is stored under /verif/seeded/<PID>-<k>/ (patch.diff, demo,
 import json, os, re, shutil, subprocess, sys, time
 
 VERIF = os.path.dirname(os.path.abspath(__file__))
-WT = "/tmp/seedrun"
+WT = os.environ.get("SEED_WT", "/tmp/seedrun")
 ENV = dict(os.environ, GOFLAGS="-mod=mod", GOPROXY="off")
 
 
